@@ -49,7 +49,7 @@ META = {
              level_note='trusted: long double references; two documentation/implementation mismatches are listed findings'),
 
  'C15': dict(technique='runtime monitoring: ILU driver oracles (replacement-event count from guarded hooks, structure, preconditioner-solve residual, exactness without dropping) + ASan/UBSan',
-             level_text='?gsisx on structurally nonsingular inputs over the ILU option lattice: completes, info equals the number of pivot-replacement events, bijections, nonzero finite U diagonal, ILU structure predicate, restored index arrays, X is the solve defined by the returned factors, complete-LU identity when dropping is off and nothing was replaced',
+             level_text='?gsisx on structurally nonsingular inputs over the ILU option lattice: completes, info equals the number of pivot-replacement events, bijections, nonzero finite U diagonal, ILU structure predicate, restored index arrays, finite returned A, X is the solve defined by the returned factors, complete-LU identity when dropping is off and nothing was replaced; 35 % of the cases start from chosen first capacities of the factor arrays (guarded capacity hook), and a 6x6 family with units beyond sqrt(overflow) and a stored zero exercises the rejected-MC64-scaling / ?gsequ fallback path',
              level_note='trusted: the guarded event hooks, long double references; structurally singular inputs are outside the property (finding F14 listed)'),
  'C16': dict(technique='runtime monitoring: writer-as-reference differential over generated HB/RB/MM/triplet encodings + ASan',
              level_text='reader output (dims, nnz, per-column pattern and values = strtod of the printed text) compared exactly with the matrix the generator rendered, over Fortran edit descriptors, counts per line, E/D exponents, scale factors, RHS blocks, symmetric files with and without diagonal entries, coordinate orders and comments; Matrix Market headers with blank and indented comment lines',
